@@ -147,8 +147,32 @@ def inverse(p):
 
 
 # --------------------------------------------------------------------------
+def reduce_sqrt(p):
+    """sqrt(A)^e with |e| >= 2 -> A^(e div 2) * sqrt(A)^(e mod 2)   (A > 0 assumed, as the code does)"""
+    r = {}
+    hit_any = False
+    for m, c in p.items():
+        hit = None
+        for i, (a, e) in enumerate(m):
+            if a[0] == 'fn' and a[1] == 'sqrt' and (e >= 2 or e <= -2):
+                hit = i
+                break
+        if hit is None:
+            r = add(r, {m: c})
+            continue
+        hit_any = True
+        a, e = m[hit]
+        rest = m[:hit] + m[hit + 1:]
+        q, rem = (e // 2, e % 2) if e > 0 else (-((-e) // 2), -((-e) % 2))
+        if rem:
+            rest = mono_mul(rest, ((a, rem),))
+        r = add(r, mul({rest: c}, ipow(uncanon(a[2][0]), q)))
+    return reduce_sqrt(r) if hit_any else r
+
+
 def reduce_trig(p):
     """rewrite sin(a)^k (k>=2) with sin^2 = 1 - cos^2; cancels inv(S)*... is NOT done here"""
+    p = reduce_sqrt(p)
     changed = True
     while changed:
         changed = False
@@ -294,12 +318,28 @@ def from_term(t, env=None):
             else:
                 s = 1
             return scale(atom((name, canon(a))), s)
+        if name in ('intdiv', 'mod') and len(args) == 2:
+            a, b = from_term(args[0], env), from_term(args[1], env)
+            if all(len(q) <= 1 and (not q or () in q) for q in (a, b)) and b:
+                x, y = a.get((), Fraction(0)), b[()]
+                if x.denominator == 1 and y.denominator == 1:
+                    return const(int(x) // int(y) if name == 'intdiv' else int(x) % int(y))
+        if name == 'trunc' and len(args) == 1:
+            a = from_term(args[0], env)
+            if len(a) <= 1 and (not a or () in a):
+                return const(int(a.get((), 0)))
+        if name in ('loop', 'loopvar', 'elemstore') or name.startswith('container:'):
+            return atom(('fn', name, tuple(canon(from_term(x, env)) if x[0] not in ('unk',) else canon(sym('?unk')) for x in args)))
         if name == 'sqrt' and len(args) == 1:
             a = reduce_trig(from_term(args[0], env))
             return atom(('fn', 'sqrt', (canon(a),)))
         return atom(('fn', name, tuple(canon(reduce_trig(from_term(a, env))) for a in args)))
     if k == 'apply':
         return atom(('app', canon(from_term(t[1], env)), tuple(canon(reduce_trig(from_term(a, env))) for a in t[2])))
+    if k == 'size':
+        return atom(('fn', 'size', (canon(from_term(t[1], env)),)))
+    if k == 'elem':
+        return atom(('fn', 'elem', (canon(from_term(t[1], env)), canon(from_term(t[2], env)))))
     raise ValueError('term outside the polynomial subset: %r' % (t[:2],))
 
 
